@@ -39,6 +39,7 @@ def run(ctx):
             # task-key agreement (P2) is schedule-independent and owned by C03/C05/C06/C11
             pools.rule_P3(ctx, P, prog, s)
         pools.rule_P7(ctx, P, prog, fi)
+    pools.rule_P3_full_state(ctx, P, prog)
     pools.rule_P3_module_ref(ctx, P, prog, ["amr_kitchen/chef/chef.py"])
     ctx.floor("parallel pool call sites", n_par, 18)
     ctx.floor("serial twins", n_ser, 3)
